@@ -63,7 +63,7 @@ def run(tier, seed):
             for how in (True, "same"):
                 ri.append((sp, dict(o, resume_from=k, resume_via_json=how)))
     col.merge(stepcheck.explore(ri, MONS, 0, 0, seed=seed))
-    lit = [(sp, {"rule": "TSLACK", "max_time": 20}) for sp in F.unsorted_absence_specs() + F.same_name_task_specs() + F.double_link_specs() + F.three_level_product_specs()]
+    lit = [(sp, {"rule": "TSLACK", "max_time": 20}) for sp in F.unsorted_absence_specs() + F.same_name_task_specs() + F.double_link_specs() + F.three_level_product_specs() + F.nested_running_specs() + F.nested_order_specs()]
     col.merge(stepcheck.explore(lit, MONS, 0, 0, seed=seed))
     col.merge(stepcheck.explore(stepcheck.edited_items(), MONS, 0, 0, seed=seed))  # runs after an earlier run and an in-place model edit
     col.merge(stepcheck.explore(F.scale_items(("TSLACK", "SPT")), MONS, 0, 0, seed=seed))  # medium-sized models (10-14 tasks / workers / machines), long absence lists
